@@ -88,6 +88,11 @@ impl Probe {
         } else if id.starts_with("ctxrestart") {
             let r = ctx.restart();
             self.ev(format!("script_result ctx.restart {}", fmt_unit(&r)));
+        } else if id.starts_with("ctxboth") {
+            let r = ctx.stop();
+            self.ev(format!("script_result ctx.stop {}", fmt_unit(&r)));
+            let r = ctx.restart();
+            self.ev(format!("script_result ctx.restart {}", fmt_unit(&r)));
         }
         self.ev(format!("user_done handle {id}"));
     }
@@ -268,6 +273,19 @@ fn main() {
     }
 }
 
+/// a liveness query; a panic inside it is an outcome to report ("panic"), not a crash of the replayer
+fn flag(f: impl FnOnce() -> bool) -> String {
+    let hook = std::panic::take_hook();
+    std::panic::set_hook(Box::new(|_| {}));
+    let r = std::panic::catch_unwind(std::panic::AssertUnwindSafe(f));
+    std::panic::set_hook(hook);
+    match r {
+        Ok(true) => "1".into(),
+        Ok(false) => "0".into(),
+        Err(_) => "panic".into(),
+    }
+}
+
 enum Started {
     Done(String),
     Fut(OpFut),
@@ -314,6 +332,18 @@ fn start_op(handles: &std::rc::Rc<std::cell::RefCell<HashMap<String, H>>>, op: &
         "await" => {
             let a = addr!();
             Started::Fut(Box::pin(async move { fmt_unit(&a.await) }))
+        }
+        "await_mut" => {
+            // (&mut addr).await: the handle stays with the client and is used again afterwards
+            let hs2 = handles.clone();
+            match hs.remove(&a1) {
+                Some(H::Addr(mut a)) => Started::Fut(Box::pin(async move {
+                    let r = (&mut a).await;
+                    hs2.borrow_mut().insert(a1, H::Addr(a));
+                    fmt_unit(&r)
+                })),
+                _ => panic!(),
+            }
         }
         "clone" => {
             let a = addr!();
@@ -413,14 +443,14 @@ fn start_op(handles: &std::rc::Rc<std::cell::RefCell<HashMap<String, H>>>, op: &
         },
         "stopped" => {
             let a = addr!();
-            Started::Done(if a.stopped() { "1" } else { "0" }.into())
+            Started::Done(flag(|| a.stopped()))
         }
         "running" => {
             let a = addr!();
-            Started::Done(if a.running() { "1" } else { "0" }.into())
+            Started::Done(flag(|| a.running()))
         }
         "weak_stopped" => match hs.get(&a1) {
-            Some(H::WeakAddr(w)) => Started::Done(if w.stopped() { "1" } else { "0" }.into()),
+            Some(H::WeakAddr(w)) => Started::Done(flag(|| w.stopped())),
             _ => panic!(),
         },
         "try_stop" => match hs.get_mut(&a1) {
